@@ -23,13 +23,15 @@ CONSTANTS Family,       \* "dag" | "gen"
           AliasNames,   \* dag: alias names besides the plain import
           UsesInner, UsesLast,  \* dag: subsets of {"var", "fn", "meth"}
           FixClasses,   \* dag: subset of {"Cfg", "Own"}
+          FirstTargets, \* dag: what m1 may import (the fixtures are mirror images of each other:
+                        \*      the quick tier enumerates one half of the c1 <-> c2 symmetry)
           TVarNames, MinParams, MaxParams, AttrShapes, Locs, Subs   \* gen
 
 VARIABLES mods, gp, gs, gloc, gsub, done
 vars == <<mods, gp, gs, gloc, gsub, done>>
 
 Cur == Len(mods)
-Targets(k) == Fixtures \cup {UpName(j) : j \in 1 .. k - 1}
+Targets(k) == IF k = 1 THEN FirstTargets ELSE Fixtures \cup {UpName(j) : j \in 1 .. k - 1}
 UsedT(m) == {m[x].t : x \in DOMAIN m}
 UsedA(m) == {m[x].a : x \in DOMAIN m} \ {""}
 CapOf(k) == IF k = NUp THEN MaxImpL ELSE MaxImpI
